@@ -108,3 +108,30 @@ package db
 //@   ensures[owned]       isNilErr(err) ==> (old(s.last) < sequence && sequence <= old(s.max)) || !(sequence in old(reservedAll))
 //@   ensures[accounted]   isNilErr(err) ==> (forall x uint64 :: {x in published} {x in publishFailed} old(s.last) < x && x <= old(s.max) ==> x == sequence || (s.last < x && x <= s.max) || (x in published) || (x in publishFailed))
 //@   ensures[newly]       isNilErr(err) ==> (forall x uint64 :: {x in reservedAll} {x in published} {x in publishFailed} (x in reservedAll) && !(x in old(reservedAll)) ==> x == sequence || (s.last < x && x <= s.max) || (x in published) || (x in publishFailed))
+
+// ---- release of reserved numbers when a write fails ----
+
+//@ fn isTimeoutErr(e error) bool
+//@ extern func github.com/couchbase/sync_gateway/base.IsTimeoutError
+//@   inert
+//@   ensures result == isTimeoutErr(err)
+
+//@ func sequenceAllocator.releaseSequence
+//@   requires s != nil
+//@   modifies published, publishFailed, releaseAttempted
+//@   ensures[attempted] releaseAttempted == union(old(releaseAttempted), single(sequence))
+
+//@ extern func github.com/couchbase/sync_gateway/db.DatabaseCollection.sequences
+//@   inert
+//@   ensures result != nil
+
+// A write that failed for any reason other than a storage timeout gives back the sequence it had
+// reserved and every sequence it had set aside as unused (a release attempt is made for each).
+//@ func DatabaseCollectionWithUser.updateAndReturnDoc
+//@   props C07 C11
+//@   modifies *
+//@   ensures[release-doc-seq] called(WriteUpdateWithXattrs, 1) && !isNilErr(callres(WriteUpdateWithXattrs, 1, 1)) && !isTimeoutErr(callres(WriteUpdateWithXattrs, 1, 1)) && docSequence > 0 ==> (docSequence in releaseAttempted)
+//@   ensures[release-unused]  called(WriteUpdateWithXattrs, 1) && !isNilErr(callres(WriteUpdateWithXattrs, 1, 1)) && !isTimeoutErr(callres(WriteUpdateWithXattrs, 1, 1)) ==> (forall k int :: {unusedSequences[k]} 0 <= k && k < len(unusedSequences) ==> (unusedSequences[k] in releaseAttempted))
+//@   ensures[surfaces]        called(WriteUpdateWithXattrs, 1) && !isNilErr(callres(WriteUpdateWithXattrs, 1, 1)) && callres(WriteUpdateWithXattrs, 1, 1) != box(base.ErrUpdateCancel) ==> !isNilErr(err)
+//@   loop 1 invariant[released] forall k int :: {unusedSequences[k]} 0 <= k && k <= #index ==> (unusedSequences[k] in releaseAttempted)
+//@   loop 1 invariant[doc-seq]  docSequence > 0 ==> (docSequence in releaseAttempted)
